@@ -1,5 +1,6 @@
 import RockitModel.Proofs.Shooting
 import RockitModel.Model.Transcribe
+import RockitModel.Proofs.RKTie
 /-!
 # C01 — shooting transcription encodes exactly the chosen integration scheme
 
@@ -101,5 +102,24 @@ end exec
 /-! ### non-vacuity: a concrete instance (ℚ, scalar state, `x' = x·t`, two Euler steps) -/
 example : (Spec.propagate (eulerStep (fun (x : ℚ) (t : ℚ) => (x * t, (0:ℚ)))) 2 (1:ℚ) 1 2 2).1 = 6 := by
   norm_num [Spec.propagate, eulerStep]
+
+
+/-! ### the scheme as written in the source (regenerated on every run) is the model's step -/
+section source_tie
+variable {K V Q : Type} [Field K] [CharZero K] [AddCommGroup V] [Module K V] [AddCommGroup Q] [Module K Q]
+
+/-- every assignment of `intg_rk` / `intg_expl_euler`, read as a linear form by the translator, is the classical scheme -/
+theorem source_schemes_as_expected :
+    (Rockit.Generated.rk4Parsed = true ∧ Rockit.Generated.rk4StageX = RKTie.expectedRk4StageX ∧ Rockit.Generated.rk4StageT = RKTie.expectedRk4StageT ∧
+      Rockit.Generated.rk4Xf = RKTie.expectedRk4Xf) ∧ (Rockit.Generated.eulerParsed = true ∧ Rockit.Generated.eulerXf = [⟨"X", 1, 1, 0, 0⟩, ⟨"k.ode", 1, 1, 1, 0⟩]) := by
+  decide
+
+/-- … and interpreting those forms (stage arguments, stage times, result) gives exactly the model's `rk4Step` -/
+theorem source_rk4_is_model_step (f : V → K → V × Q) (x : V) (t0 DT DTc : K) :
+    RKTie.interp RKTie.expectedRk4Xf (RKTie.odeVal x (RKTie.runStages (K := K) RKTie.expectedRk4StageX RKTie.expectedRk4StageT f x t0 DT DTc)) DT DTc
+      = (rk4Step f x t0 DT DTc).xf :=
+  (RKTie.rk4_source_is_model f x t0 DT DTc).1
+
+end source_tie
 
 end Rockit.C01
